@@ -70,7 +70,7 @@ View == <<cur, ticks, paused, ov, vals, Len(hist)>>
 EndedIff == IsEnded <=> (~HasTl(cur) \/ F32Round(ticks) >= TotalOfState(cur))
 TerminalWhenEnded ==
   (HasTl(cur) /\ IsEnded) => vals = Recompute(cur, NoOvAll, TotalOfState(cur) + 1000, vals)
-NeverEndedIfInfinite == (HasTl(cur) /\ \E i \in 1..Len(Tls[cur]) : Tls[cur][i].tm.rep = -2) => ~IsEnded
+NeverEndedIfInfinite == (HasTl(cur) /\ \E i \in 1..Len(Tls[cur]) : Unbounded(Tls[cur][i].tm)) => ~IsEnded
 
 Emit == (EmitLines /\ (Len(hist) = Depth \/ (rng # 0 /\ Len(hist) > 0 /\ (Len(hist) % 8) = 0))) =>
   PrintT(<<"REPLAY", ToJson([kind |-> "anim", pd |-> PD, np |-> NP, k |-> K, tls |-> Cfg.tls, s0 |-> Cfg.s0,
